@@ -148,6 +148,58 @@ for _k in range(len(SMARTS_PANEL)):
     OBSERVERS['smarts%d_all' % _k] = (lambda k: lambda m: _mappings(_query(k), m, False))(_k)
 
 
+# ---- queries as inputs: a QueryContainer is an input of the property like a molecule (its string, its copy, the match lists
+# it yields - first use and with the memoised search plan, whichever target the plan was first compiled against)
+QUERY_TARGETS = ['OC1CCNC1.CCl', 'CC(=O)Oc1ccccc1C(O)=O', 'NC(Cc1ccccc1)C(O)=O', 'C[C@H](N)C(=O)O', 'C/C=C/C(=O)N', 'c1ccc2[nH]ccc2c1',
+                 'CC(C)(C)C(=O)Cl', 'O=S(=O)(N)c1ccc(F)cc1', '[NH3+]CC([O-])=O', 'C1CC1C#N', 'BrCCBr', 'CP(C)C', 'OCC1OC(O)C(O)C(O)C1O',
+                 'ClC(Cl)Cl.CCN(CC)CC', 'C[CH]C', 'C=CC=O']
+_targets = {}
+
+
+def _target(k):
+    from chython import smiles
+    if k not in _targets:
+        _targets[k] = smiles(QUERY_TARGETS[k])
+    return _targets[k]
+
+
+def _q_atoms(q):
+    out = []
+    for n, a in q.atoms():
+        out.append([n, type(a).__name__] + [repr(getattr(a, k, 'n/a')) for k in
+                   ('atomic_symbol', 'charge', 'is_radical', 'neighbors', 'hybridization', 'ring_sizes', 'implicit_hydrogens',
+                    'heteroatoms', 'masked', 'stereo', 'isotope')])
+    return out
+
+
+def _q_match(q, af, tseed):
+    import random
+    order = list(range(len(QUERY_TARGETS)))
+    random.Random(tseed).shuffle(order)       # which target the search plan meets first is part of the schedule
+    out = {}
+    for k in order:
+        out[QUERY_TARGETS[k]] = _mappings(q, _target(k), af)
+    return out
+
+
+_TSEED = [0]
+QRY_OBSERVERS = {
+    'q_str': lambda q: str(q),
+    'q_repr': lambda q: repr(q),
+    'q_atoms': _q_atoms,
+    'q_bonds': lambda q: sorted((min(n, m), max(n, m), repr(b.order), repr(getattr(b, 'in_ring', None)), repr(getattr(b, 'stereo', None)))
+                                for n, m, b in q.bonds()),
+    'q_len': lambda q: [len(q), q.atoms_count, q.bonds_count, list(q)],
+    'q_match': lambda q: _q_match(q, True, _TSEED[0]),
+    'q_match_all': lambda q: _q_match(q, False, _TSEED[0] + 1),
+    'q_match_fresh_copy': lambda q: _q_match(q.copy(), True, _TSEED[0] + 2),
+    'q_is_sub': lambda q: {QUERY_TARGETS[k]: [q <= _target(k), q < _target(k)] for k in range(len(QUERY_TARGETS))},
+    'q_copy_str': lambda q: [str(q.copy()), _q_atoms(q.copy())],
+    'q_union': lambda q: (lambda u: [str(u), _q_atoms(u)])(q | q.copy().__class__()) if False else None,
+}
+QRY_OBSERVERS.pop('q_union')
+
+
 def _rxn_on_copy(r, method, warm=False):
     c = r.copy()
     if warm:
@@ -277,6 +329,9 @@ def load(src):
     from chython import smiles
     if src[0] == 'smi' or src[0] == 'rxnsmi':
         return smiles(src[1])
+    if src[0] == 'smarts':
+        from chython import smarts
+        return smarts(src[1])
     if src[0] == 'rxnfile':
         import os
         from chython import RDFRead
@@ -324,6 +379,7 @@ def main():
     elif cfg.get('gc') == 'low':
         gc.set_threshold(5, 2, 2)
     corpus = job['corpus']
+    _TSEED[0] = int(cfg.get('tseed', 0))
     live, copies = {}, {}
     out = []
     for ev in job['events']:
@@ -337,7 +393,7 @@ def main():
                 if m is None:
                     continue
                 try:
-                    fn = OBSERVERS[ev[2]]
+                    fn = OBSERVERS.get(ev[2]) or QRY_OBSERVERS[ev[2]]
                     if ev[2] in WARMABLE:
                         # the same key is evaluated on a cold copy (first) and on a copy whose cache was filled (later phases)
                         v = digest(fn(m, warm=(ev[3] != 'first')))
